@@ -115,6 +115,18 @@ func rulesC17(c *Ctx) {
 				}
 				if okFlag {
 					c.Ok(key, f, w, "the mutation sets a monotone flag in the same block and the index is invalidated under that flag on every path to return")
+				} else if func() bool {
+					// another design altogether: the index is updated in place (slices.Insert / Delete / append on sortedKeys)
+					for _, g0 := range c.pkgClosure(f.Root()) {
+						for _, fw := range g0.FieldWrites(g0.Body, sorted, true) {
+							if as, isAs := fw.(*ast.AssignStmt); isAs && len(as.Rhs) == 1 && !isNilIdent(as.Rhs[0]) {
+								return true
+							}
+						}
+					}
+					return false
+				}() {
+					c.Undecided(key, f, w, "the sorted index is maintained in place instead of being invalidated: whether every mutation keeps it exact is not something this rule can decide")
 				} else {
 					c.Fail(key, f, w, "a path leaves the method with features changed but sortedKeys still valid (%s): the next list walks stale keys (missing, duplicated or nil entries)", g.PathString(path))
 				}
@@ -281,14 +293,32 @@ func rulesC17(c *Ctx) {
 		c.Check(okLast, "paginateList:cursor-is-last-returned-id", pl, nil, "the cursor encodes the unique id of the last item actually returned")
 		// first page vs cursor page
 		okSeq := 0
-		for _, w := range Writes(pl.Body, false) {
-			if w.RHS == nil {
-				continue
+		// (the sequence may be chosen in a helper behind paginateList, and handed back by return instead of assignment)
+		type seqSite struct {
+			f  *Func
+			ce *ast.CallExpr
+		}
+		var sites []seqSite
+		for _, g0 := range c.pkgClosure(pl) {
+			for _, w := range Writes(g0.Body, false) {
+				if w.RHS != nil {
+					if ce, ok := ast.Unparen(w.RHS).(*ast.CallExpr); ok && g0.Callee(ce) != nil {
+						sites = append(sites, seqSite{g0, ce})
+					}
+				}
 			}
-			ce, ok := ast.Unparen(w.RHS).(*ast.CallExpr)
-			if !ok || pl.Callee(ce) == nil {
-				continue
+			if g0 != pl {
+				for _, r := range g0.Returns() {
+					for _, e := range r.Results {
+						if ce, ok := ast.Unparen(e).(*ast.CallExpr); ok && g0.Callee(ce) != nil {
+							sites = append(sites, seqSite{g0, ce})
+						}
+					}
+				}
 			}
+		}
+		for _, site := range sites {
+			pl, ce := site.f, site.ce
 			switch pl.Callee(ce).Name() {
 			case "all":
 				okSeq++
@@ -369,14 +399,99 @@ func rulesC17(c *Ctx) {
 		c.Pin("feature-set accesses", n, 14)
 	})
 
+	c.Rule("R-C17-10", "there is one notion of 'the sorted index has not been built': sortKeys rebuilds when sortedKeys is nil, so every other decision about the index's existence tests nil too — a `len(sortedKeys) == 0` test somewhere else treats a built-but-empty index as missing (or a missing one as built) and the two disagree after the set was emptied", func() {
+		var nilTests, lenTests []string
+		n := 0
+		for _, f := range c.funcsWithLits(pM) {
+			g := f.Graph()
+			for _, cv := range g.condVertices() {
+				var atoms []Atom
+				splitAtoms(g.Node(cv-1).(ast.Expr), true, &atoms)
+				for _, a := range atoms {
+					if x, _, ok := NilTest(a.E); ok && f.IsField(x, sorted) {
+						nilTests = append(nilTests, f.At(a.E))
+						n++
+					}
+					if x, y, op, ok := binaryCmp(a.E); ok && (op == token.EQL || op == token.NEQ || op == token.GTR) {
+						if ce, isC := ast.Unparen(x).(*ast.CallExpr); isC && f.BuiltinName(ce) == "len" && len(ce.Args) == 1 && f.IsField(ce.Args[0], sorted) {
+							if z, isZ := f.ConstInt(y); isZ && z == 0 {
+								lenTests = append(lenTests, f.At(a.E))
+								n++
+							}
+						}
+					}
+				}
+			}
+		}
+		c.Pin("existence tests of the sorted index", n, 1)
+		c.Check(len(nilTests) == 0 || len(lenTests) == 0, "sortedKeys:one-notion-of-not-built", nil, nil, "the index's existence is tested as nil-ness in %v and as emptiness in %v", nilTests, lenTests)
+	})
+
 	c.Rule("R-C17-4", "a malformed cursor is answered invalid-params, whatever makes it malformed", func() {
 		pl := c.Fn(pM, "", "paginateList")
 		pg := pl.Graph()
 		dc := c.FnObj(pM, "", "decodeCursor")
 		eIP := c.Obj(pJ, "ErrInvalidParams")
-		dv := pg.callVertices(dc)
-		c.Need(len(dv) == 1, "paginateList: decodeCursor")
+		// the call in paginateList behind which the cursor is decoded: decodeCursor itself, or a helper that reaches it
+		var dv []int
+		var callee *Func
+		for v := 0; v < pg.N; v++ {
+			if pg.Node(v) == nil {
+				continue
+			}
+			for _, call := range pl.AllCalls(pg.Node(v), false) {
+				fn := pl.Callee(call)
+				if fn == nil {
+					continue
+				}
+				if fn == dc {
+					dv, callee = append(dv, v), c.P.FuncOf(dc)
+					continue
+				}
+				if h := c.P.FuncOf(fn); h != nil && h.Pkg == pl.Pkg {
+					for _, k := range c.pkgClosure(h) {
+						if k.Obj == dc {
+							dv, callee = append(dv, v), h
+						}
+					}
+				}
+			}
+		}
+		c.Need(len(dv) == 1 && callee != nil, "paginateList: decodeCursor")
 		ev := errVarOfCall(pl, pg.Node(dv[0]))
+		// every error a function hands back is invalid-params: it wraps the sentinel, or forwards the error of a callee of
+		// which the same holds
+		var allInvalidParams func(h *Func, depth int) bool
+		allInvalidParams = func(h *Func, depth int) bool {
+			if depth > 3 {
+				return false
+			}
+			all := true
+			hg := h.Graph()
+			for _, dr := range h.Returns() {
+				if len(dr.Results) != 2 || isNilIdent(dr.Results[1]) || h.WrapsObj(dr.Results[1], eIP) {
+					continue
+				}
+				fwd := false
+				if o := h.ObjOf(dr.Results[1]); o != nil {
+					for v := 0; v < hg.N; v++ {
+						if hg.Node(v) == nil || errVarOfCall(h, hg.Node(v)) != o {
+							continue
+						}
+						for _, call := range h.AllCalls(hg.Node(v), false) {
+							if k := c.P.FuncOf(h.Callee(call)); k != nil && k.Pkg == h.Pkg && allInvalidParams(k, depth+1) {
+								fwd = true
+							}
+						}
+					}
+				}
+				if !fwd {
+					all = false
+					c.Fail(h.Name()+":error-without-invalid-params", h, dr, "this failure branch does not wrap ErrInvalidParams, and paginateList forwards the error unchanged: such a cursor is answered with code 0")
+				}
+			}
+			return all
+		}
 		okMap := false
 		for _, r := range pl.Returns() {
 			if len(r.Results) != 2 {
@@ -390,16 +505,7 @@ func rulesC17(c *Ctx) {
 				continue
 			}
 			if pl.ObjOf(r.Results[1]) == ev {
-				// the decode error itself is returned: then every error return of decodeCursor must carry the code
-				d := c.Fn(pM, "", "decodeCursor")
-				all := true
-				for _, dr := range d.Returns() {
-					if len(dr.Results) == 2 && !isNilIdent(dr.Results[1]) && !d.WrapsObj(dr.Results[1], eIP) {
-						all = false
-						c.Fail("decodeCursor:error-without-invalid-params", d, dr, "this failure branch of decodeCursor does not wrap ErrInvalidParams, and paginateList forwards the error unchanged: such a cursor is answered with code 0")
-					}
-				}
-				okMap = all
+				okMap = allInvalidParams(callee, 0)
 			}
 		}
 		c.Check(okMap, "paginateList:bad-cursor-is-invalid-params", pl, pg.Node(dv[0]), "the decode-error branch returns ErrInvalidParams (or an error that wraps it on every failure branch)")
@@ -464,6 +570,21 @@ func rulesC17(c *Ctx) {
 		}
 		// fromNext: e is *X where X is res.nextCursorPtr() or a local that only ever holds such a pointer; or a local string
 		// that only ever holds such a dereference
+		// fromCaller: e is the cursor the caller put into the params (*params.cursorPtr()), directly or through a local
+		var fromCaller func(f *Func, e ast.Expr, depth int) bool
+		fromCaller = func(f *Func, e ast.Expr, depth int) bool {
+			if depth > 4 {
+				return false
+			}
+			e = ast.Unparen(e)
+			if st, ok := e.(*ast.StarExpr); ok {
+				return isPtrCall(f, st.X, "cursorPtr")
+			}
+			if id, isID := e.(*ast.Ident); isID {
+				return onlyFrom(f, id, depth, func(r ast.Expr) bool { return fromCaller(f, r, depth+1) })
+			}
+			return false
+		}
 		var fromNext func(f *Func, e ast.Expr, depth int) bool
 		fromNext = func(f *Func, e ast.Expr, depth int) bool {
 			if depth > 4 {
@@ -481,7 +602,65 @@ func rulesC17(c *Ctx) {
 				return false
 			}
 			if id, isID := e.(*ast.Ident); isID {
-				return onlyFrom(f, id, depth, func(r ast.Expr) bool { return fromNext(f, r, depth+1) })
+				return onlyFrom(f, id, depth, func(r ast.Expr) bool { return fromNext(f, r, depth+1) || fromCaller(f, r, depth+1) })
+			}
+			// a field that holds the position: every value it is ever given — in the literals that create its struct (each
+			// must name it: an omitted field starts empty) and in assignments — is a NextCursor or the caller's own cursor
+			if sel, isSel := e.(*ast.SelectorExpr); isSel {
+				fld, _ := f.ObjOf(sel.Sel).(*types.Var)
+				if fld == nil || !fld.IsField() {
+					return false
+				}
+				n := 0
+				for _, g0 := range c.pkgClosure(root) {
+					for _, g := range append([]*Func{g0}, g0.AllLits()...) {
+						okAll := true
+						inspectNoLit(g.Body, func(x ast.Node) {
+							cl, isCL := x.(*ast.CompositeLit)
+							if !isCL {
+								return
+							}
+							st, isSt := g.TypeOf(cl).Underlying().(*types.Struct)
+							if !isSt {
+								return
+							}
+							has := false
+							for i := 0; i < st.NumFields(); i++ {
+								if st.Field(i) == fld {
+									has = true
+								}
+							}
+							if !has {
+								return
+							}
+							n++
+							named := false
+							for _, el := range cl.Elts {
+								if kv, isKV := el.(*ast.KeyValueExpr); isKV && g.ObjOf(kv.Key) == types.Object(fld) {
+									named = true
+									if !(fromNext(g, kv.Value, depth+1) || fromCaller(g, kv.Value, depth+1)) {
+										okAll = false
+									}
+								}
+							}
+							if !named {
+								okAll = false
+							}
+						})
+						for _, w := range Writes(g.Body, false) {
+							if ws, isWS := ast.Unparen(w.LHS).(*ast.SelectorExpr); isWS && g.ObjOf(ws.Sel) == types.Object(fld) {
+								n++
+								if w.RHS == nil || !(fromNext(g, w.RHS, depth+1) || fromCaller(g, w.RHS, depth+1)) {
+									okAll = false
+								}
+							}
+						}
+						if !okAll {
+							return false
+						}
+					}
+				}
+				return n > 0
 			}
 			return false
 		}
